@@ -292,7 +292,7 @@ fn place_s(p: Place) -> String {
 }
 
 fn line(p: Place, enc: &GEnc, units: &str, ops: &[String]) -> String {
-    format!("c15-expr {} {} {} {} {} {} {}", place_s(p), enc.e, enc.asz, enc.fmt, enc.ver, units, if ops.is_empty() { "-".to_string() } else { ops.join(";") })
+    format!("c15-{} {} {} {} {} {} {}", place_s(p).replace(':', "-"), enc.e, enc.asz, enc.fmt, enc.ver, units, if ops.is_empty() { "-".to_string() } else { ops.join(";") })
 }
 
 /// every builder once, with one operand choice per round, in every place x version x format x address size
@@ -397,8 +397,29 @@ fn g_far(r: &mut Rng, emit: &mut dyn FnMut(String), n: usize) {
     }
 }
 
+/// the four i16 limits exactly: forward 32767 / 32768, backward -32768 / -32769, skip and bra,
+/// in an attribute, a DWARF 5 location list and a CFI expression
+fn g_far_exact(emit: &mut dyn FnMut(String)) {
+    for (pi, place) in [Place::Attr, Place::Loc, Place::Cfi(2, false)].into_iter().enumerate() {
+        for br in ["skip", "bra"] {
+            for (forward, body) in [(true, 32767usize), (true, 32768), (false, 32765), (false, 32766)] {
+                let d = body - 4;
+                let data = hex(&vec![0x5au8; d]);
+                let ops: Vec<String> = if forward {
+                    vec![format!("{br}:2"), format!("implicit_value:{data}"), "op:150".into()]
+                } else {
+                    vec![format!("implicit_value:{data}"), format!("{br}:0")]
+                };
+                let enc = GEnc { e: if pi == 1 { "be" } else { "le" }, asz: 8, fmt: "32", ver: if matches!(place, Place::Cfi(..)) { 4 } else { 5 } };
+                emit(line(place, &enc, "-/-/R12", &ops));
+            }
+        }
+    }
+}
+
 pub fn gen(ctx: &Ctx, emit: &mut dyn FnMut(String)) {
     g_sweep(emit);
+    g_far_exact(emit);
     let mut r = ctx.rng(15);
     g_far(&mut r, emit, ctx.n(60, 600));
     // structured-valid: random programs whose references must all resolve
